@@ -9,6 +9,15 @@ CHECKS = [
               '(labels read via _translate_*_sign, parity-checked in C12). Genuine canonicaliser defects outside the two '
               'documented gaps are listed in known_findings.json with independent structural detectors.',
          technique='metamorphic property-based testing (Hypothesis) with an independent symmetry oracle'),
+    dict(id='C02',
+         text='Round trip by generated inputs: every generated molecule is written in 3 drawn format variants (subsets of '
+              'a/A/m/h/r, canonical) with a drawn random-writer seed and read back; comparison is atom-wise under the written '
+              'order (elements, isotopes, charges, radicals, H, bond orders, tetrahedral/allene/cis-trans signs). Injectivity: '
+              'exhaustive enumeration of decorated graphs <= 5 atoms (6 thorough) against brute-force isomorphism classes, and all '
+              'label assignments of sampled molecules against stereo signatures under the brute-force automorphism group.',
+         note='Trusted: brute-force canonical keys and automorphisms (vf/oracles/iso.py); stereo signs read with _translate_*_sign '
+              '(parity-checked in C12); SMILES-inexpressible partial labelling of conjugated polyenes is not generated.',
+         technique='round-trip property-based testing (Hypothesis) plus exhaustive small-graph enumeration against brute-force isomorphism'),
     dict(id='C18',
          text='Exhaustive enumeration of the finite domain (118 elements x all tabulated isotopes + unspecified x charge '
               '-4..+4 x radical): lookups against a literal standard table, table-key consistency, mass computability, '
